@@ -19,17 +19,7 @@ type vTreeNode struct {
 	depth int
 }
 
-// vWideTree: thorough tier only -- a third top-level name ("ab") with at most one
-// pattern, or the two names with up to two patterns (the full product, 24 389
-// trees x 73 pattern lists x 9 operations, is far beyond the wall limit).
-var vWideTree bool
-
-func vNames(depth int) []string {
-	if depth == 1 && vWideTree {
-		return []string{"a", "b", "ab"}
-	}
-	return []string{"a", "b"}
-}
+func vNames(depth int) []string { return []string{"a", "b"} }
 
 var vPatterns = []string{"a", "b", "ab", "a.*", ".*b", "[ab]", "a.b", "b.a"}
 
@@ -37,7 +27,6 @@ var vPatterns = []string{"a", "b", "ab", "a.*", ".*b", "[ab]", "a.b", "b.a"}
 func vGenTree(fs FS, root string) []vTreeNode {
 	var nodes []vTreeNode
 	_ = fs.MkDir(root)
-	vWideTree = verif.Tier() > 0 && verif.Bool("wideTree")
 	for _, n1 := range vNames(1) {
 		switch verif.Choice("k1", 3) { // absent, file, dir
 		case 1:
@@ -61,15 +50,21 @@ func vGenTree(fs FS, root string) []vTreeNode {
 	return nodes
 }
 
+// vPickPatterns: no pattern or one of the eight; in the thorough tier optionally a
+// second one from three representatives (a plain name, a prefix expression, a
+// class). The full square of the list, and a third name in the trees, are
+// beyond the wall limit of the thorough tier (see DESIGN 0.6).
 func vPickPatterns() []string {
-	maxP := 1
-	if verif.Tier() > 0 && !vWideTree {
-		maxP = 2
-	}
-	n := verif.Len("npat", 0, maxP)
+	n := verif.Len("npat", 0, 1)
 	var ps []string
 	for i := 0; i < n; i++ {
 		ps = append(ps, vPatterns[verif.Choice("pat", len(vPatterns))])
+	}
+	if n == 1 && verif.Tier() > 0 {
+		second := []string{"", "b", "a.*", "[ab]"}
+		if p := second[verif.Choice("pat2", len(second))]; p != "" {
+			ps = append(ps, p)
+		}
 	}
 	return ps
 }
